@@ -120,6 +120,12 @@ CHECKS = {
          '3 200 (quick) / 64 000 (thorough) generated i18n element trees (translate with / without id, nested translate, named children under condition / omit-tag, domain / context / target on any ancestor, i18n:attributes with and without ids, tal:content + i18n:translate=\"\") under rewriting and identity translators, ~5 000 translate calls compared per quick run; 320 / 4 800 METAL cases (macro body starts from the caller\'s settings, slot filler keeps those of the place where it is written, slot default), 320 / 4 800 implicit-translation configurations, 320 / 4 800 message-object insertions (offered exactly once with the current domain / context / target; numbers, strings and __html__ objects are not).',
          'Trusted: the 90-line i18n model; a missing keyword argument is read as None.',
          'DESIGN.md §3 C10'),
+ 'C09': ('metamorphic',
+         'runtime metamorphic oracle, both sides on the real engine: rendering of a caller that uses METAL compared (output and evaluation log of recording callables) with the rendering of its source-level inlining produced by an independent 80-line inliner',
+         'exploration',
+         '2 400 (quick) / 40 000 (thorough) (library, caller) pairs: 1..3 macros with up to 3 define-slot regions (repeated names), nested uses in bodies, extend-macro chains, callers filling random subsets of slots plus unknown names, uses inside repeat / define, two consecutive uses in one scope, local / global definitions and recording callables in bodies, slot defaults and fillers, probes of a / b / g / macroname before and after every use; libraries in the same template, in another string template, in a file reached through load:; ~6 800 fillers and ~390 extend chains per quick run.',
+         'Trusted: the inliner\'s reading of the statement (macroname is rebound to the base\'s name inside an extend chain); both renderings come from the real engine so everything but METAL cancels out.',
+         'DESIGN.md §3 C09'),
 }
 NOT_YET = {}
 
